@@ -8,6 +8,7 @@ import (
 	"go/token"
 	"math/rand"
 	"reflect"
+	"regexp"
 	"sort"
 	"strings"
 
@@ -44,7 +45,7 @@ func newC02gen(seed int64) *c02gen {
 	return g
 }
 
-var c02Strings = []string{"a", "b", "x", "T", "_", "foo", "err", "string", "", "a.b", "1x", "if", "+", "-", "*", "&", ":=", "=", "==", "<-", "...", "!", "|", "~", "{", "}", "(", ")", ";", ":", ",", "&&", "++", ".", "text", "a\nb", "//raw", "/* blk */", "*/", "x */ y", "%d"}
+var c02Strings = []string{"a", "b", "x", "T", "_", "foo", "err", "string", "", "a.b", "1x", "if", "+", "-", "*", "&", ":=", "=", "==", "<-", "...", "!", "|", "~", "{", "}", "(", ")", ";", ":", ",", "&&", "++", ".", "text", "a\nb", "//raw", "/* blk */", "*/", "x */ y", "%d", "0XFF", "0B1010", "0O755", "1E6", "0X1P-2", "0123i", "1_000", "0x_1F"}
 var c02Paths = []string{"fmt", "a.b/x", "c.d/x", "my/local", "C", "os", "math/rand", "crypto/rand", "", "x/go", "y/1"}
 
 func (g *c02gen) code(depth int) jen.Code {
@@ -286,7 +287,9 @@ func c02Build(seed int64, grammarBias bool) *c02Built {
 func (g *c02gen) expr(depth int) *jen.Statement {
 	r := g.r
 	if depth <= 0 {
-		switch r.Intn(4) {
+		switch r.Intn(5) {
+		case 4: // a number spelled by hand, not canonically (gofmt rewrites 0XFF to 0xFF, 1E6 to 1e6, 0123i to 123i)
+			return jen.Op([]string{"0XFF", "0B1010", "0O755", "1E6", "0X1P-2", "0123i", "0Xabc", "1_0E2"}[r.Intn(8)])
 		case 0:
 			return jen.Lit(c14Lits[r.Intn(len(c14Lits))])
 		case 1:
@@ -322,6 +325,8 @@ func (g *c02gen) expr(depth int) *jen.Statement {
 		return g.expr(0)
 	}
 }
+
+var gotoArtefact = regexp.MustCompile(`(?m)^\s*goto\s*$`)
 
 func parsesAsFragment(src []byte) bool {
 	if _, err := parser.ParseFile(token.NewFileSet(), "o.go", "package p\nfunc _() {\n"+string(src)+"\n}", 0); err == nil {
@@ -364,7 +369,7 @@ func judgeTwin(r *mon.Run, c mon.Case, desc string, f1, f2 *jen.File) (valid boo
 		if !bytes.Equal(want, b1.Bytes()) {
 			r.Violate("not-gofmt-of-raw", c, "the formatted rendering differs from gofmt(raw rendering of the twin) at byte %d\n%s\n--- rendered ---\n%s\n--- gofmt(raw) ---\n%s", firstDiff(want, b1.Bytes()), desc, mon.Trunc(b1.String(), 1500), mon.Trunc(string(want), 1500))
 		}
-		if _, err := parser.ParseFile(token.NewFileSet(), "o.go", b1.Bytes(), 0); err != nil {
+		if _, err := parser.ParseFile(token.NewFileSet(), "o.go", b1.Bytes(), 0); err != nil && !gotoArtefact.Match(b1.Bytes()) {
 			r.Violate("unparsable-output", c, "Render returned nil but the output does not parse: %v\n%s", err, desc)
 		}
 		// GoString is Render for tests
@@ -388,6 +393,12 @@ func judgeFragment(r *mon.Run, c mon.Case, desc, kind string, render func(*bytes
 		if fb.Len() != 0 {
 			r.Violate("wrote-on-error", c, "%s returned an error but wrote %d bytes\n%s", kind, fb.Len(), desc)
 		}
+		return false
+	}
+	if gotoArtefact.Match(fb.Bytes()) {
+		// `goto;` (no label) is accepted by go/parser, but go/printer prints it as a bare `goto` line, which
+		// does not scan as a statement of its own any more: gofmt's output is unparsable through no fault of
+		// jennifer's. Such fragments are outside the domain.
 		return false
 	}
 	if !parsesAsFragment(fb.Bytes()) {
@@ -416,6 +427,16 @@ func c02RecipeCase(r *mon.Run, idx int64) {
 		r.Count("recovered_contract_panics_before_a_judged_render", 1)
 	}
 	valid := judgeTwin(r, c, desc, b1.f, b2.f)
+	if valid && idx%4 == 1 {
+		// the same File objects again after a change that keeps the length of the source: the second render
+		// must be gofmt of the *current* raw rendering, not of the previous one
+		for k, cp := range []string{"example.com/v1/shapes", "example.com/v2/shapes"} {
+			b1.f.CanonicalPath, b2.f.CanonicalPath = cp, cp
+			b2.f.NoFormat = false
+			judgeTwin(r, c, desc+fmt.Sprintf("; re-rendered after CanonicalPath=%q (step %d)", cp, k), b1.f, b2.f)
+		}
+		r.Count("re_rendered_after_same_length_change", 1)
+	}
 	nfrag := 0
 	for i, fr := range b1.frags {
 		fr := fr
